@@ -13,8 +13,10 @@ Core Lean only.
   with the block's code;
 * `thread_isolation` — for EVERY schedule (any list of thread-tagged events, not a bounded
   enumeration) each thread observes exactly what its own events, run alone, would show;
-* `task_copy_semantics`, `thread_starts_fresh` — a task starts from a copy, a thread from the default,
-  and afterwards neither side sees the other's writes;
+* `task_copy_semantics`, `task_created_anywhere`, `thread_starts_fresh` — a task starts from a copy (of
+  the value the parent's own history gives at that moment, at any point of any schedule), a thread from
+  the default, and afterwards neither side sees the other's writes; `thread_isolation_state` is the
+  state form of isolation;
 * `unknown_code_fails`, `unknown_code_fails_in_block`, `known_code_dispatches`;
 * `nonlifo_example` — what is excluded by the grammar: suspended generators closed out of LIFO order leak.
 -/
@@ -354,6 +356,81 @@ theorem task_copy_semantics (a ch : Nat) (es : List (Nat × Ev)) (w : World) (tr
       exact hne' (by injection hEq)
     · exact ha p hp
 
+/-- state form of isolation (every schedule): thread `t` ends exactly where its own events, run alone, leave it -/
+theorem thread_isolation_state (es : List (Nat × Ev)) (w w' : World) (h : runW w es = some w') (t : Nat)
+    (hns : NoSpawnOnto t es) : run (w t) (proj t es) = some (w' t) := by
+  induction es generalizing w with
+  | nil => simp [runW] at h; subst h; simp [proj, run]
+  | cons p es ih =>
+    obtain ⟨s, e⟩ := p
+    simp only [runW] at h
+    cases hs : stepW w s e with
+    | none => simp [hs] at h
+    | some w1 =>
+      simp only [hs, Option.bind_some] at h
+      have hns' : NoSpawnOnto t es := fun p hp => hns p (List.mem_cons_of_mem _ hp)
+      have := ih w1 h hns'
+      by_cases hst : s = t
+      · subst hst
+        have hself := stepW_self hs
+        simp only [proj, List.filter_cons, beq_self_eq_true, if_true, List.map_cons, run, hself, Option.bind_some]
+        simpa [proj] using this
+      · have hne : (s == t) = false := by simp [hst]
+        have hoth := stepW_other hs hst (hns (s, e) (List.mem_cons_self ..))
+        simp only [proj, List.filter_cons, hne, Bool.false_eq_true, if_false]
+        rw [← hoth]
+        simpa [proj] using this
+
+theorem traceW_append (w : World) (a b : List (Nat × Ev)) :
+    traceW w (a ++ b) =
+      (traceW w a).bind (fun ta => (runW w a).bind (fun w' => (traceW w' b).map (fun tb => ta ++ tb))) := by
+  induction a generalizing w with
+  | nil => simp [traceW, runW]
+  | cons p es ih =>
+    obtain ⟨s, e⟩ := p
+    simp only [List.cons_append, traceW, runW]
+    cases h : stepW w s e with
+    | none => simp
+    | some w1 =>
+      simp only [ih, Option.bind_some]
+      cases traceW w1 es <;> cases runW w1 es <;> simp [Function.comp_def]
+
+/-- ★ the general form: a task may be created at ANY point of ANY schedule (`pre` arbitrary, the parent
+inside any number of blocks).  Whatever follows, the child observes its own events run from the value
+the parent had at that moment; and that value is the one the parent's own history alone produces. -/
+theorem task_created_anywhere (pre post : List (Nat × Ev)) (a ch : Nat) (w : World) (tr : List (Nat × Obs))
+    (h : traceW w (pre ++ (a, Ev.spawnTask ch) :: post) = some tr)
+    (hch : NoSpawnOnto ch post) (ha : NoSpawnOnto a pre) :
+    ∃ ca tpre tpost, run (w a) (proj a pre) = some ca ∧ traceW w pre = some tpre ∧ tr = tpre ++ tpost
+      ∧ trace ⟨ca.cur, []⟩ (proj ch post) = some (projObs ch tpost) := by
+  rw [traceW_append] at h
+  cases hp : traceW w pre with
+  | none => simp [hp] at h
+  | some tpre =>
+    cases hr : runW w pre with
+    | none => simp [hp, hr] at h
+    | some w1 =>
+      simp only [hp, hr, Option.bind_some] at h
+      cases hq : traceW w1 ((a, Ev.spawnTask ch) :: post) with
+      | none => simp [hq] at h
+      | some tpost =>
+        simp only [hq, Option.map_some, Option.some.injEq] at h
+        refine ⟨w1 a, tpre, tpost, thread_isolation_state pre w w1 hr a ha, rfl, h.symm, ?_⟩
+        have hne : ¬ ch = a := by
+          intro hEq; subst hEq
+          simp [traceW, stepW] at hq
+        simp only [traceW, stepW, hne, if_false] at hq
+        cases ht : traceW (upd w1 ch ⟨(w1 a).cur, []⟩) post with
+        | none => simp [ht] at hq
+        | some tr1 =>
+          simp only [ht, Option.map_some, Option.some.injEq] at hq
+          subst hq
+          have := thread_isolation post _ tr1 ht ch hch
+          have hb : (a == ch) = false := by
+            have : ¬ a = ch := fun h' => hne h'.symm
+            simp [this]
+          simpa [upd, projObs, List.filter_cons, hb] using this
+
 /-- a new thread starts from the default, whatever is in force in the thread that starts it, and for
 every schedule that follows the two do not see each other -/
 theorem thread_starts_fresh (a ch : Nat) (es : List (Nat × Ev)) (w : World) (tr : List (Nat × Obs))
@@ -407,6 +484,11 @@ example : ∃ tr, traceW World.init [(0, .enter .p), (0, .spawnTask 1), (0, .spa
     = some tr ∧ (tr.map (fun p => p.2.code)) = [.p, .p, .p, .p, .f, .o, .p, .i, .o, .f, .o, .p, .f] := by
   refine ⟨_, rfl, ?_⟩
   decide
+
+/-- the task is created while the parent is inside a block: the child keeps seeing `p` after the parent left -/
+example : ∃ tr, traceW World.init ([(0, .enter .p)] ++ (0, .spawnTask 1) :: [(1, .get), (0, .exit), (1, .get), (0, .get)])
+    = some tr ∧ (projObs 1 tr).map (·.code) = [.p, .p] ∧ (projObs 0 tr).map (·.code) = [.p, .p, .f, .f] :=
+  ⟨_, rfl, by decide, by decide⟩
 
 example : NoSpawnOnto 1 [(1, .get), (0, .enter .p), (1, .enter .o)] := by
   intro p hp
